@@ -4,7 +4,8 @@ import json
 import os
 
 VERIF = os.path.dirname(os.path.dirname(os.path.abspath(__file__)))
-KNOWN_PATH = os.path.join(VERIF, 'known_findings.json')
+KNOWN_PATH = os.environ.get('VERIF_KNOWN') or \
+    os.path.join(VERIF, 'known_findings.json')
 REPLAY_DIR = os.path.join(os.environ.get('VERIF_OUT', VERIF), 'replays')
 
 
